@@ -458,7 +458,7 @@ class Runner:
         if header is not None:
             kw['header'] = header
         text, out, exc = None, 'file', None
-        if target == 'buffer':
+        if target in ('buffer', 'offset'):
             slot = 0
         path = self.paths[slot] if slot else None
         try:
@@ -472,6 +472,15 @@ class Runner:
                 with open(path, 'w') as f:
                     xye.save_xye(f, da, **kw)
                 text = path.read_text()
+            elif target == 'offset':
+                # a file object that already holds something else (an earlier table, a title line): the table starts
+                # where the file object stands, and is loaded from there
+                buf = io.StringIO()
+                buf.write(rng.choice(['0.5 1.5 2.5\n7.0 8.0 9.0\n', 'Si standard, run 7\n', '# other header\n1 2 3\n', '\n\n'])
+                          if rng is not None else '1 2 3\n')
+                offset_pos = buf.tell()
+                xye.save_xye(buf, da, **kw)
+                text = buf.getvalue()[offset_pos:]
             else:
                 buf = io.StringIO()
                 xye.save_xye(buf, da, **kw)
@@ -513,7 +522,10 @@ class Runner:
         got = {'dim': '?', 'cname': '?', 'unit': '?', 'cunit': '?'}
         if text is not None:
             try:
-                if path is None:
+                if target == 'offset':
+                    buf.seek(offset_pos)
+                    res = xye.load_xye(buf, **lkw)
+                elif path is None:
                     res = xye.load_xye(io.StringIO(text), **lkw)
                 elif load_via == 'handle':
                     with open(path) as f:
@@ -754,6 +766,10 @@ def run(ctx):
             add(_writable_cfg(rng, n), rand_header(rng), rng.choice(['random', 'distinguished', 'tiny', 'huge']),
                 rng.choice(['path', 'str']), slot=slot_c, naming=rng.choice(NAMINGS), req=rng.choice(LOAD_REQS),
                 load_via=rng.choice(['default', 'str']), keep=False)
+    # (c''') file objects that do not stand at their beginning
+    for n in [1, 2, 5, 30] + [rng.randrange(1, 100) for _ in range(60 if th else 8)]:
+        add(_writable_cfg(rng, n), rand_header(rng), rng.choice(['random', 'distinguished', 'near_int']), 'offset',
+            naming=rng.choice(NAMINGS), req=rng.choice(LOAD_REQS), keep=False)
     # (d) the scenarios of XyeStore: a few data sets, a few paths, saves and loads in any order; the same DataArray
     #     object saved again (to another target) without being rebuilt
     for _ in range(300 if th else 40):
